@@ -111,6 +111,23 @@ def layouts(body_expr, rnd):
     return variants, ign
 
 
+def bracket_layouts(body_expr, rnd):
+    """line breaks and comments INSIDE brackets: after the opening bracket, around commas, and between the last item and
+    the closing bracket (with and without a comment or a trailing comma there); parameter lists likewise"""
+    eq = rnd.choice(['=', ':', '=>'])
+    aux = 'X = "a" | "ba"\nT(p, q) = [q, p]'
+    b = body_expr
+    return [
+        f'start = [{b}, X, T(X, "b")]\n{aux}\n',                                                          # reference
+        f'start {eq} [\n    {b},\n    X,\n    T(X, "b")\n]\n{aux}\n',
+        f'start {eq} [{b}, X, T(X, "b")  # the last item\n]\n{aux}\n',
+        f'start {eq} Seq(\n    {b},\n    X,\n    T(\n        X,\n        "b"\n    )\n)\n{aux}\n',
+        f'start {eq} [\n{b}\n,\nX\n,\nT(X, "b" # second argument\n)\n,\n]\n{aux}\n',
+        f'start {eq} [{b}, X, T(X, "b")]\nX = "a" | "ba"\nT(\n    p,\n    q\n) = [\n    q, p\n]\n',
+        f'start {eq} [{b}, X, T(X, "b")]\nX = "a" | "ba"\nT(p, q # the second\n) = [q, p # swapped\n]\n',
+    ]
+
+
 OPS = [('|', 5), ('|>', 4), ('<|', 4), ('where', 4), ('<<', 3), ('>>', 3), ('//', 2), ('/?', 2)]
 
 
@@ -180,6 +197,7 @@ def run(R):
             continue
         vs, ign = layouts(render(e, 'sugar'), rnd)
         add_group('layout', vs)
+        add_group('layout-brackets', bracket_layouts(render(e, 'sugar'), rnd))
         add_group('ignore-keyword', [f'start = {render(e, "sugar")}\nX = "a" | "ba"\nignore " "\n',
                                       f'start = {render(e, "sugar")}\nX = "a" | "ba"\nignored " "\n',
                                       f'ignored Sp = " "\nstart = {render(e, "sugar")}\nX = "a" | "ba"\n'],
